@@ -20,9 +20,9 @@ Ltac norm_max_in H :=
   end.
 
 (* a fact about reals that follows from the hypotheses *)
-Ltac real_fact0 := first [ assumption | lra | (intro; lra) | congruence | timeout 8 nra | (intro; timeout 8 nra) ].
+Ltac real_fact0 := first [ assumption | lra | (intro; lra) | congruence | (pose proof PI_RGT_0; lra) | timeout 8 nra | (intro; timeout 8 nra) ].
 (* the cheap part only (no non-linear search): tried for P and for ~P before the expensive tactics are allowed to run *)
-Ltac cheap_fact0 := first [ assumption | lra | (intro; lra) | congruence ].
+Ltac cheap_fact0 := first [ assumption | lra | (intro; lra) | congruence | (pose proof PI_RGT_0; lra) ].
 Ltac cheap_fact :=
   norm_dec; norm_max;
   first [ cheap_fact0
